@@ -345,8 +345,14 @@ func strLen(L *LState) int {
 }
 
 func strLower(L *LState) int {
-	str := L.CheckString(1)
-	L.Push(LString(strings.ToLower(str)))
+	// C locale: only ASCII letters change, every other byte is kept as is
+	bts := []byte(L.CheckString(1))
+	for i, c := range bts {
+		if 'A' <= c && c <= 'Z' {
+			bts[i] = c + ('a' - 'A')
+		}
+	}
+	L.Push(LString(string(bts)))
 	return 1
 }
 
@@ -425,8 +431,14 @@ func strSub(L *LState) int {
 }
 
 func strUpper(L *LState) int {
-	str := L.CheckString(1)
-	L.Push(LString(strings.ToUpper(str)))
+	// C locale: only ASCII letters change, every other byte is kept as is
+	bts := []byte(L.CheckString(1))
+	for i, c := range bts {
+		if 'a' <= c && c <= 'z' {
+			bts[i] = c - ('a' - 'A')
+		}
+	}
+	L.Push(LString(string(bts)))
 	return 1
 }
 
